@@ -15,8 +15,9 @@ import hashlib
 
 VERIF = os.path.dirname(os.path.dirname(os.path.abspath(__file__)))
 REPO = os.environ.get('FFSM2_REPO', '/repo')
-EVIDENCE_DIR = os.path.join(VERIF, 'evidence')
-REPORT_DIR = os.path.join(VERIF, 'reports')
+# scratch-copy runs (self-tests, seeded changes) redirect their evidence and reports so that /verif/evidence only ever holds runs against /repo
+EVIDENCE_DIR = os.environ.get('VERIF_EVIDENCE_DIR') or os.path.join(VERIF, 'evidence')
+REPORT_DIR = os.environ.get('VERIF_REPORT_DIR') or os.path.join(VERIF, 'reports')
 BUILD_DIR = os.path.join(VERIF, '.build')
 CACHE_DIR = os.path.join(VERIF, '.cache')
 KNOWN_FILE = os.path.join(VERIF, 'known_findings.json')
